@@ -243,7 +243,7 @@ def run_box(ctx, box, launches_spec, jobs, deadline, case_timeout, launch_timeou
             L += predicted_launches()
             predicted_all = []
             if box.tier == 'thorough':
-                L.sort(key=lambda l: (l.n, 0 if l.meta.get('predicted') else 1, -len(l.meta['cases'])))
+                L.sort(key=lambda l: (l.n, 0 if l.meta.get('predicted') else 1, -l.meta['bcast'], -len(l.meta['cases'])))    # the few binomial points before the many chain points
         if deadline is not None:
             for l in L:       # nothing outlives the deadline by more than a minute: a killed launch still reports the cases it completed
                 l.kill_at = deadline + 60
